@@ -114,6 +114,7 @@ def explore_cells(model: Model, tier: str) -> Dict[str, int]:
     section("match-search", lambda: (c11.check_functions(model, null), c11.check_map_re(model, null)))
     section("node-rendering", lambda: (c08.check_path_template(model, null, "x"), c08.check_projections(model, null, "x")))
     section("builtin-calls-end-to-end", lambda: builtin_calls(model))
+    section("token-grid", lambda: grid_crashes(model, tier))
     return counts
 
 
@@ -171,6 +172,17 @@ def builtin_calls(model: Model) -> None:
                 return it.call_function(call.cls.find_method("evaluate"), [call, c], {}, None, self_av=call)
 
             paths(model, body)
+
+
+def grid_crashes(model: Model, tier: str) -> None:
+    """Every short token sequence: the parser may accept or refuse, but only with a JSONPathError."""
+    from . import _tokgrid
+
+    mf, ms, mt = (5, 5, 4) if tier == "thorough" else (4, 4, 3)
+    for entry, seq, verdict, detail in _tokgrid.run_grid(mf, ms, mt):
+        if verdict.startswith("crash") and harness.MONITOR is not None:
+            text = " ".join(seq)
+            harness.MONITOR.append({"exc": verdict[6:], "msg": f"token sequence {entry}: {text}", "site": ("jsonpath_rfc9535/parse.py", 0, f"token-grid:{entry}"), "entry": [f"token-grid:{entry}:{text}"], "world": {}})
 
 
 def lexer_states(model: Model) -> None:
